@@ -1,12 +1,29 @@
 /- ymdriver: executable side of the models (trace validators / model runners). No Mathlib. -/
 import Driver.Atomic
 import Driver.Unique
+import Driver.Pipeline
+import Driver.Pool
+import Driver.When
+import Driver.Shared
+import Driver.Strand
+import Driver.Wait
+import Driver.Event
+import Driver.CoMutex
 
 def main (args : List String) : IO UInt32 := do
   match args with
   | ["atomic"] => Yaclib.Driver.Atomic.main false; return 0
   | ["atomic-spec"] => Yaclib.Driver.Atomic.main true; return 0
+  | ["pipe"] => Yaclib.Driver.Pipe.main false; return 0
+  | ["pipe-spec"] => Yaclib.Driver.Pipe.main true; return 0
   | ["validate", "unique"] => Yaclib.Driver.validate Yaclib.Driver.UniqueD.model
+  | ["validate", "pool"] => Yaclib.Driver.validate Yaclib.Driver.PoolD.model
+  | ["validate", "shared"] => Yaclib.Driver.validate Yaclib.Driver.SharedD.model
+  | ["validate", "strand"] => Yaclib.Driver.validate Yaclib.Driver.StrandD.model
+  | ["validate", "wait"] => Yaclib.Driver.validate Yaclib.Driver.WaitD.model
+  | ["validate", "when"] => Yaclib.Driver.validate Yaclib.Driver.WhenD.model
+  | ["validate", "event"] => Yaclib.Driver.validate Yaclib.Driver.EventD.model
+  | ["validate", "comutex"] => Yaclib.Driver.validate Yaclib.Driver.CoMutexD.model
   | _ =>
     IO.eprintln "usage: ymdriver <model> …"
     return 2
